@@ -35,6 +35,24 @@ checks.update({
  "C20": dict(cat="exploration", ref="4/C20", tech="runtime monitoring: generator-labelled error trees built with the real constructors, real classifiers called on the real values, smallest-failing-subtree identities",
    text="Exhaustive up to depth 3 (core constructor alphabet; full 17-constructor alphabet to depth 2; every registered code x 9 coded forms x plain-wrapper contexts) plus random trees of depth <= 12: for every generated error tree IsFatalError, conduiterr.Get, errors.Is for 20 sentinels, ToStatus->FromStatus, exitcode.ExitCode and the http/api/status functions must agree with ground-truth labels computed from the constructors' documented semantics.", note="Not a proof beyond the enumerated depth; codes registered under /repo/cmd internal packages are not importable; WithUnknownReason on a coded error and FromStatus of the synthetic internal.unknown code are recorded as observations."),
 })
+
+PIPE2 = PIPE_NOTE
+checks.update({
+ "C07": dict(cat="exploration", ref="4/C07", tech="runtime monitoring: DLQ record/ordering/content oracle + reference nack window written from the property wording + cross-engine differential run of the same scripts + Go race detector",
+   text="Every DLQ record observed is judged (at most once per run after a confirmed write, source order, carries the original record, a scripted error of THAT record and the component that raised it), every failed DLQ write (never followed by an unjustified ack), per source session the tolerate-vs-stop decision against a reference window; single-source scenarios are re-run on the other engine and the dead-lettered sets must agree when both runs were uninterrupted.", note=PIPE_NOTE + " Engine-induced nacks (teardown, fan-out sibling) are observations; exact window decisions are only judged where the outcome sequence the window saw is the scripted one."),
+ "C08": dict(cat="exploration", ref="4/C08", tech="runtime monitoring: per-record outcome comparison against a reference model of processor result semantics; small result-kind vectors enumerated + Go race detector",
+   text="Every acknowledged source record's observed outcome (pieces delivered per destination / nothing written / the original dead-lettered once) must equal the reference outcome derived from the processor and destination scripts; all 780 result-kind vectors of batches <=4 are enumerated in thorough on both engines, larger chained shapes are sampled.", note=PIPE_NOTE),
+ "C09": dict(cat="exploration", ref="4/C09", tech="runtime monitoring: hostile plugin reply injection with child-process crash attribution, wedge watchdog, ack-justification and conditional-alignment oracles + Go race detector",
+   text="One hostile reply per scenario (11 processor reply shapes with/without condition, 6 destination ack shapes, 2 source record shapes, errors and panics from 5 unary plugin calls of source/destination/DLQ) in both engines; the worker process must survive (reproduced death = violation), the run must settle (watchdog twice = wedge), every source ack must stay justified, conditional processors must stay aligned and pass-through records in place.", note=PIPE_NOTE + " A plugin that never answers or panics in its own Run goroutine is outside the premise."),
+ "C10": dict(cat="exploration", ref="4/C10", tech="runtime monitoring: cause-injection with status-history / restart / back-off oracle over store snapshots and monotonic event stamps + Go race detector",
+   text="One failure cause per scenario (6 fatal, 2 transient, 1 undetermined by the wording, 3 stop kinds) with retry limits 0-3/infinite and back-off 2-60 ms; judged from the stored status history and plugin Open events: fatal => Degraded with cause and no automatic restart, transient => restart from the stored position no sooner than MinDelay and at most MaxRetries times, accepted stop => no new run, matching stopped status.", note=PIPE_NOTE + " Only the lower back-off bound is a verdict (lateness is load)."),
+ "C12": dict(cat="exploration", ref="4/C12", tech="runtime monitoring: force-stop injection at six classes of instant (incl. plugins withholding acks), termination watchdog, status/restart/resume-position oracle + Go race detector",
+   text="Force stop at start-up, mid-flow, with a destination or the DLQ withholding acks, right after a graceful stop, idle; then WaitPipeline and a user Start: the run terminates, status Degraded with cause, never Recovering/Running again before the user start, every ack in the history justified, Start succeeds and reopens each source at the stored position with nothing unhandled behind it.", note=PIPE_NOTE),
+ "C13": dict(cat="exploration", ref="4/C13", tech="runtime monitoring: generation-stamping fake processor + call-log oracle around live reconfigure requests fired at event-log positions + Go race detector",
+   text="Default engine: 1-4 live reconfigure requests (mid-stream, idle, racing a stop; unopenable new processor, concurrent and cancelled requests); each record handed to the processor once per run, no configuration reappears after a switch, an unopenable configuration never processes a record and its request fails, an exclusive successful request is in effect for the following calls, no call outside Open..Teardown, C01/C04/C05 oracles hold, guarded Update still refuses.", note=PIPE_NOTE + " arch-v2 has no in-place reconfigure path."),
+ "C19": dict(cat="fault_enumeration", ref="4/C19", tech="runtime monitoring: file-tree snapshot oracle + verifier call log over real Install/ExtractBinary/VerifyIndex; strace per-(thread, syscall) SIGKILL injection on a re-executed harness child; porcupine register model for the index high-water mark",
+   text="Every file-system syscall of a registry install (72-116 per install, 6 prestate scenarios) is a kill point: the child is SIGKILLed right before it, the directory is judged (manifest/index-state old-or-new, artifact absent-or-verified bytes) and a second install must complete. The install gate is enumerated over digest{10} x verifier{4} x fetch failure{20} x unsigned-policy context{9} x prestate{4} (full product in thorough). Extraction containment and the index high-water mark are explored with generated hostile archives (27 name x 31 type classes) and concurrent signed-index histories checked with porcupine.", note="Kill = SIGKILL at syscall entry via strace injection (no power-loss model; fsync ordering not judged). Sigstore cryptography is the trusted base (scripted ArtifactVerifier). Bundle install path not covered. An index-digest path traversal into the cache directory (RemoveAll outside the install dir) is recorded as an observation, not charged to C19 (DESIGN.md)."),
+})
 ALL = ["C%02d" % i for i in range(1, 21)]
 na_reason = "check under construction in this round (see DESIGN.md section 4 for the planned monitor); not claimed until it runs silent on the unchanged tree and catches seeded mutants"
 m = {
